@@ -876,10 +876,17 @@ func (g *gen) plainRecursion() string {
 		g.Decls = append(g.Decls, fmt.Sprintf("func %s(n int, s string) (int, string) {\n\tif n <= 0 {\n\t\treturn 0, s\n\t}\n\tt := s\n\tif n%%50 == 0 {\n\t\tt += \"x\"\n\t}\n\tk, u := %s(n-1, t)\n\treturn k + len(t), u\n}", r, r))
 		return fmt.Sprintf("rec.E(%d)\nrec.E(%s(%d, \"\"))\n", g.Ev(), r, depth)
 	case 2: // mutual recursion, func1ret1 bool
-		r2 := g.Top("rd")
-		g.Decls = append(g.Decls, fmt.Sprintf("func %s(n uint) bool {\n\tif n == 0 {\n\t\treturn true\n\t}\n\treturn %s(n - 1)\n}\nfunc %s(n uint) bool {\n\tif n == 0 {\n\t\treturn false\n\t}\n\treturn %s(n - 1)\n}", r, r2, r2, r))
-		g.Tag("recursion:mutual")
-		return fmt.Sprintf("rec.E(%d, %s(%d), %s(%d))\n", g.Ev(), r, depth, r2, depth)
+		// (mutually recursive DECLARED functions need a forward reference between
+		// declarations: out-of-order declarations belong to C16/C17, where gomacro's
+		// missing forward declaration of functions is recorded; here the cycle is
+		// closed through a package-level function variable assigned once)
+		r2, fw := g.Top("rd"), g.Top("fw")
+		g.Tag("excluded-shape:mutual-recursion-of-declared-functions")
+		g.Decls = append(g.Decls, fmt.Sprintf("var %s func(uint) bool", fw))
+		g.Decls = append(g.Decls, fmt.Sprintf("func %s(n uint) bool {\n\tif n == 0 {\n\t\treturn true\n\t}\n\treturn %s(n - 1)\n}", r, fw))
+		g.Decls = append(g.Decls, fmt.Sprintf("func %s(n uint) bool {\n\tif n == 0 {\n\t\treturn false\n\t}\n\treturn %s(n - 1)\n}", r2, r))
+		g.Tag("recursion:mutual-through-func-var")
+		return fmt.Sprintf("%s = %s\nrec.E(%d, %s(%d), %s(%d))\n", fw, r2, g.Ev(), r, depth, r2, depth)
 	default: // recursive closure through a captured variable
 		g.Tag("recursion:closure")
 		v := g.Local("fib")
@@ -1201,6 +1208,7 @@ func (g *gen) sharedCounter() string {
 		}
 		fmt.Fprintf(&s, "rec.E(%d, %s(), %s)\n", g.Ev(), get, c)
 	}
+	fmt.Fprintf(&s, "rec.E(%d, %s(), %s())\n", g.Ev(), nest, get)
 	return s.String()
 }
 
